@@ -150,6 +150,13 @@ def make_pool_class(env: ExecEnv, kind: str):
             env.started += 1
             env.sim.log("start", ent["key"])
             fn, args, kwargs = ent["fn"], ent["args"], ent["kwargs"]
+            import sys as _sys
+
+            saved_limit = _sys.getrecursionlimit()
+            if getattr(env, "fresh_worker_state", False):
+                # a worker process does not inherit what the parent set at run time (spawn / forkserver start methods):
+                # interpreter-wide settings are the defaults of a fresh interpreter while the task runs
+                _sys.setrecursionlimit(1000)
             try:
                 if env.do_pickle:
                     fn, args, kwargs = pickle.loads(pickle.dumps((fn, args, kwargs)))
@@ -164,6 +171,8 @@ def make_pool_class(env: ExecEnv, kind: str):
                     except Exception as pe:  # noqa: BLE001
                         e = pe
                 ent["out"] = ("exc", e)
+            finally:
+                _sys.setrecursionlimit(saved_limit)
             self.running.append(ent)
 
         def _complete(self, ent):
@@ -255,9 +264,18 @@ class SimEvent:
         return False
 
 
+_EVENT_SERIAL = [0]
+
+
+def new_event():
+    """Every Event() is a new, independent event (as with the real Manager / threading)."""
+    _EVENT_SERIAL[0] += 1
+    return SimEvent(f"stop{_EVENT_SERIAL[0]}")
+
+
 class SimManager:
     def Event(self):  # noqa: N802
-        return SimEvent("stop")
+        return new_event()
 
 
 class SimMultiprocessing:
